@@ -6,6 +6,7 @@ import (
 	"encoding/binary"
 	"errors"
 	"fmt"
+	"hash/crc32"
 	"math/rand/v2"
 	"sort"
 	"strings"
@@ -353,9 +354,11 @@ func (s *c07Signer) Sign(msg []byte) ([]byte, error) {
 // c07FailSigner always fails; c07BadNameSigner has a name Sign must refuse.
 type c07FailSigner struct{ key *refnote.Key }
 
-func (s *c07FailSigner) Name() string                   { return s.key.Name }
-func (s *c07FailSigner) KeyHash() uint32                { return s.key.KeyHash() }
-func (s *c07FailSigner) Sign(msg []byte) ([]byte, error) { return nil, errors.New("signer unavailable") }
+func (s *c07FailSigner) Name() string    { return s.key.Name }
+func (s *c07FailSigner) KeyHash() uint32 { return s.key.KeyHash() }
+func (s *c07FailSigner) Sign(msg []byte) ([]byte, error) {
+	return nil, errors.New("signer unavailable")
+}
 
 // c07PoisonSign performs a Sign call that fails only after an earlier signer has already produced
 // its signature (a later signer errors, or has an invalid name). Whatever state such a call leaves
@@ -1968,6 +1971,19 @@ func (e *c07Env) keyStrings() {
 			if v.Verify([]byte(text+"x"), k.SignText(text)) {
 				c.Violation("newverifier-accepts-signature-of-other-text", id, map[string]any{"vkey": k.VerifierString()})
 			}
+			// another text of the same length and the same CRC-32, under the signature the same verifier has
+			// just accepted for the first (a verdict is about all the bytes of the text)
+			long := fmt.Sprintf("key check %d: the quick brown fox jumps over the lazy dog and comes back for more\n", i)
+			if tw := c07CRCTwinText(long); tw != "" {
+				c.Eval(2)
+				if !v.Verify([]byte(long), k.SignText(long)) {
+					c.Violation("newverifier-rejects-signature-of-its-key", id, map[string]any{"vkey": k.VerifierString(), "text": long})
+				}
+				if v.Verify([]byte(tw), k.SignText(long)) {
+					c.Violation("newverifier-accepts-signature-of-other-text", id, map[string]any{"vkey": k.VerifierString(), "signed": long, "presented": tw, "same": "length and CRC-32"})
+				}
+				c.Class("keys:same-length-same-crc32-text")
+			}
 		}
 		// tampered encodings: observed, not judged (the statement is about Open and Sign)
 		vs := k.VerifierString()
@@ -1981,6 +1997,47 @@ func (e *c07Env) keyStrings() {
 			c.Class(fmt.Sprintf("keys:tampered-verifier-key:%s:accepted=%t", name, err == nil))
 		}
 	}
+}
+
+// c07CRCTwinText returns a text that differs from t in the lowest bit of some of its printable ASCII
+// bytes (newlines stay) and has the CRC-32 (IEEE) of t; "" if t has too few such bytes. CRC-32 is
+// affine in the message bits, so the set of flips is a solution of a linear system over GF(2).
+func c07CRCTwinText(t string) string {
+	base := crc32.ChecksumIEEE([]byte(t))
+	type row struct {
+		delta uint32
+		flips []int // positions whose flips combine to delta
+	}
+	var basis [32]*row
+	for i := 0; i < len(t); i++ {
+		if t[i] < 0x20 || t[i] >= 0x7f {
+			continue
+		}
+		b := []byte(t)
+		b[i] ^= 1
+		cur := &row{delta: crc32.ChecksumIEEE(b) ^ base, flips: []int{i}}
+		for bit := 31; bit >= 0 && cur.delta != 0; bit-- {
+			if cur.delta>>uint(bit)&1 == 0 {
+				continue
+			}
+			if basis[bit] == nil {
+				basis[bit] = cur
+				cur = nil
+				break
+			}
+			cur = &row{delta: cur.delta ^ basis[bit].delta, flips: append(append([]int(nil), cur.flips...), basis[bit].flips...)}
+		}
+		if cur != nil && cur.delta == 0 {
+			b := []byte(t)
+			for _, k := range cur.flips {
+				b[k] ^= 1 // a position listed twice cancels out
+			}
+			if string(b) != t && crc32.ChecksumIEEE(b) == base {
+				return string(b)
+			}
+		}
+	}
+	return ""
 }
 
 func init() {
